@@ -186,11 +186,16 @@ def truth_rule(ctx, oid, key, text, sources, expect, consequence=""):
             continue
         src = {}
         for (n, ins, pol), v in zip(found, combo):
-            src[ins.id] = v if pol == "pos" else {"T": "F", "F": "T"}[v]
+            if isinstance(pol, dict):           # explicit abstract values for yes / no (e.g. an Option-valued call)
+                src[ins.id] = pol[v == "T"]
+            else:
+                src[ins.id] = v if pol == "pos" else {"T": "F", "F": "T"}[v]
         it = optabs.OptInterp(fd.body, src)
         it.run()
-        got = {r["ret"] if isinstance(r["ret"], str) else "?" for r in it.records}
-        if got and got != {want} and ({"T": "F", "F": "T"}[want] in got or got == {"?"} and False):
+        got = {r["ret"] if isinstance(r["ret"], str) else (r["ret"][1] if isinstance(r["ret"], tuple) and r["ret"][0] == "V" else "?")
+               for r in it.records}
+        definite_wrong = {g for g in got if g not in ("?", want)}
+        if got and definite_wrong:
             bad.append("%s => %s (documented: %s)" % (", ".join("%s: %s" % (k, "yes" if v else "no") for k, v in case.items()),
                                                       "/".join(sorted(got)), want))
     if bad:
@@ -214,6 +219,27 @@ def network_predicates(ctx, rid):
                "maintenance is considered iff the instance has maintenance slots",
                [("no maintenance slots", named("::is_empty"))], lambda c: "F" if c["no maintenance slots"] else "T",
                "the maintenance stages of the pipeline run exactly when they should not")
+    LOCS = "model::locations::Locations"
+
+    def nowhere_test(param):
+        def pred(ins):
+            if (ins.decl or "") != "core::cmp::PartialEq::eq" and (ins.decl or "") != "core::cmp::PartialEq::ne":
+                return None
+            fd_ = ctx.an.fd(cur[0])
+            at = fd_.slice_operand_pure(ins, ins.args[0])["atoms"] | fd_.slice_operand_pure(ins, ins.args[1])["atoms"]
+            if ("param:%d" % param) in at and ("param:%d" % (5 - param)) not in at:
+                return "pos" if ins.decl.endswith("::eq") else "neg"
+            return None
+        return pred
+    cur = [None]
+    for fn, inf in (("distance", "Infinity"), ("travel_time", "Infinity")):
+        cur[0] = LOCS + "::" + fn
+        truth_rule(ctx, "%s.%s.nowhere-is-infinitely-far" % (rid, fn), LOCS + "::" + fn,
+                   "%s between two locations without a dead-head entry is Infinity iff one of them is Nowhere (the overflow depot)" % fn,
+                   [("no entry", lambda ins: {True: "N", False: "S"} if (ins.callee or "").endswith("Locations::get_dead_head_trip") else None),
+                    ("a is Nowhere", nowhere_test(2)), ("b is Nowhere", nowhere_test(3))],
+                   lambda c: None if not c["no entry"] else (inf if (c["a is Nowhere"] or c["b is Nowhere"]) else "ZERO"),
+                   "the overflow depot becomes free to reach: every vehicle is sent there")
     truth_rule(ctx, "%s.compatible_with_vehicle_type" % rid, N("compatible_with_vehicle_type"),
                "a node is compatible with a type iff it is not a service trip or its route's type equals it",
                [("service trip", named("Node::is_service")), ("same type", eq_or_ne)],
@@ -484,3 +510,227 @@ def transition_total_signs(ctx, rid):
             ctx.ok(o, "%d signed counter term(s)" % n)
         else:
             ctx.undecided(o, "no signed counter term recognised")
+
+
+def schedule_predicates(ctx, rid):
+    key = S("check_receiver_type_compatibility")
+    fd0 = ctx.an.fd(key) if key in ctx.prog.bodies else None
+
+    def vt_of(param):
+        def pred(ins):
+            if ins.callee != S("vehicle_type_of") or fd0 is None:
+                return None
+            at = fd0.slice_operand_pure(ins, ins.args[1])["atoms"]
+            return {True: "O", False: "E"} if ("param:%d" % param) in at and ("param:%d" % (5 - param)) not in at else None
+        return pred
+
+    def differ(ins):
+        d = ins.decl or ""
+        return "pos" if d == "core::cmp::PartialEq::ne" else ("neg" if d == "core::cmp::PartialEq::eq" else None)
+
+    def scan(ins):
+        return "pos" if (ins.decl or "") == "core::iter::traits::iterator::Iterator::any" else None
+
+    def expect(c):
+        if not c["receiver is a vehicle"]:
+            return "T"
+        if c["provider is a vehicle"] and not c["types differ"]:
+            return "T"
+        return "F" if c["a node is incompatible"] else "T"
+    truth_rule(ctx, "%s.receiver-type-check.table" % rid, key,
+               "moving a segment to a real receiver is refused iff provider and receiver types differ (or the provider is a dummy) and a node of the "
+               "segment is incompatible with the receiver's type",
+               [("receiver is a vehicle", vt_of(3)), ("provider is a vehicle", vt_of(2)), ("types differ", differ), ("a node is incompatible", scan)],
+               expect, "vehicles receive trips of another vehicle type")
+
+
+def transition_formulas(ctx, rid):
+    """who is a vehicle's neighbour in its rotation cycle, and which of the neighbour's depots counts"""
+    CONST1 = ("const", "1")
+    shape_rule(ctx, "%s.get_successor_of.formula" % rid, TR("get_successor_of"),
+               ("bin", "Rem", ("bin", "Add", ANY, CONST1), ANY),
+               "the successor of the vehicle at position p of its cycle is the vehicle at (p + 1) mod len",
+               "end depots are aligned to the wrong vehicle's start depot")
+    shape_rule(ctx, "%s.counter-with-neighbours.formula" % rid, TR("maintenance_counter_of_tour_plus_dead_head_trips_before_and_after"),
+               ("bin", "Add",
+                ("bin", "Add", ("call", "Tour::maintenance_counter", [side(2)]),
+                 ("call", "in_meter", [("call", "dead_head_distance_between", [ANY, ("param", 3), ("call", "Tour::start_depot", [side(2)])])])),
+                ("call", "in_meter", [("call", "dead_head_distance_between", [ANY, ("call", "Tour::end_depot", [side(2)]), ("param", 4)])])),
+               "a tour's share of its cycle = its own counter + transfer(predecessor's end depot -> its start depot) + transfer(its end depot -> successor's start depot)",
+               "the counters of all rotation cycles are wrong")
+    key = TR("end_depot_of_predecessor_and_start_depot_of_successor")
+    o, fd = ctx.require_fn("%s.cycle-neighbours" % rid, "T12", key,
+                           "predecessor = position - 1 (wrapping to the last vehicle), successor = position + 1 (wrapping to the first); "
+                           "the predecessor contributes its END depot, the successor its START depot")
+    if fd is None:
+        return
+    tup = [i for i in fd.body.instrs() if i.kind == "assign" and i.place.local == 0 and i.rv_kind() == "agg" and i.rv.get("ak") == "tuple" and len(i.ops) == 2]
+    if len(tup) != 1:
+        ctx.undecided(o, "the returned pair is not built in one place")
+        return
+    e0 = shape.normalise(shape.expr(fd, tup[0].ops[0]))
+    e1 = shape.normalise(shape.expr(fd, tup[0].ops[1]))
+
+    def facts(e):
+        cs = shape.calls_of(e)
+        return {"end_depot": any(c.endswith("Tour::end_depot") for c in cs), "start_depot": any(c.endswith("Tour::start_depot") for c in cs),
+                "last": any(c.endswith("::last") for c in cs), "first": any(c.endswith("::first") for c in cs),
+                "sub": "op:Sub" in cs, "add": "op:Add" in cs}
+    f0, f1 = facts(e0), facts(e1)
+    bad = []
+    if f0["start_depot"] and not f0["end_depot"]:
+        bad.append("the predecessor contributes its start depot")
+    if f1["end_depot"] and not f1["start_depot"]:
+        bad.append("the successor contributes its end depot")
+    if f0["first"] and not f0["last"]:
+        bad.append("the predecessor of the first vehicle is looked up with first()")
+    if f1["last"] and not f1["first"]:
+        bad.append("the successor of the last vehicle is looked up with last()")
+    if f0["add"] and not f0["sub"]:
+        bad.append("the predecessor is taken at position + 1")
+    if f1["sub"] and not f1["add"]:
+        # `len - 1` in the wrap test is a subtraction too: only a get(.. - 1) counts
+        pass
+    # index arithmetic of the two get() calls
+    for e, want, who in ((e0, "Sub", "predecessor"), (e1, "Add", "successor")):
+        for sub in _find_calls(e, "::get"):
+            if len(sub[2]) >= 2 and sub[2][1][0] == "bin" and sub[2][1][1] in ("Add", "Sub") and any(a[0] == "const" for a in sub[2][1][2:]):
+                if sub[2][1][1] != want:
+                    bad.append("the %s is taken at position %s 1" % (who, "+" if sub[2][1][1] == "Add" else "-"))
+            elif len(sub[2]) >= 2 and sub[2][1][0] != "bin" and "VehicleIdx" not in str(sub[1]) and "Vec" in sub[1] or False:
+                pass
+    if bad:
+        ctx.bad(o, "; ".join(sorted(set(bad))) + ": the depot transfers of the rotation cycle are computed between the wrong vehicles", loc=tup[0].line())
+    elif f0["end_depot"] and f1["start_depot"] and f0["last"] and f1["first"]:
+        ctx.ok(o, "(%s, %s)" % (shape.show(e0)[:80], shape.show(e1)[:80]))
+    else:
+        ctx.undecided(o, "neighbour look-ups not in a recognised form")
+
+
+def _find_calls(e, suffix, acc=None):
+    acc = [] if acc is None else acc
+    if e[0] == "call":
+        if e[1].endswith(suffix):
+            acc.append(e)
+        for a in e[2]:
+            _find_calls(a, suffix, acc)
+    elif e[0] == "bin":
+        _find_calls(e[2], suffix, acc)
+        _find_calls(e[3], suffix, acc)
+    elif e[0] == "phi":
+        for a in e[1]:
+            _find_calls(a, suffix, acc)
+    elif e[0] == "not":
+        _find_calls(e[1], suffix, acc)
+    return acc
+
+
+def three_opt_details(ctx, rid):
+    """3-opt on a rotation cycle at positions i < j < k (parameters 2, 3, 4): each of the six transfers runs from the END depot of the
+    vehicle at a position to the START depot of the vehicle at (position + 1) mod n; the new cycle is
+    [..=i] ++ [j+1..=k] ++ [i+1..=j] ++ [k+1..]"""
+    key = TCYCLE + "::three_opt"
+    o, fd = ctx.require_fn("%s.three-opt.transfer-operands" % rid, "T12", key,
+                           "every transfer of the 3-opt delta is end_depot(cycle[p]) -> start_depot(cycle[(q + 1) mod n])")
+    if fd is None:
+        return
+    P = (("param", 2), ("param", 3), ("param", 4))
+
+    def pos_ok(e):
+        return e in P
+
+    def succ_ok(e):
+        return e[0] == "bin" and e[1] == "Rem" and e[2][0] == "bin" and e[2][1] == "Add" and \
+            ((e[2][2] in P and e[2][3][0] == "const" and str(e[2][3][1]).startswith("1")) or
+             (e[2][3] in P and e[2][2][0] == "const" and str(e[2][2][1]).startswith("1")))
+    bad, n, und = [], 0, 0
+    for f in hosts(ctx, key, depth=1):
+        for c in f.body.calls():
+            if not (c.callee or "").endswith("dead_head_distance_between") or len(c.args) < 3:
+                continue
+            n += 1
+            e1 = shape.normalise(shape.expr(f, c.args[1]))
+            e2 = shape.normalise(shape.expr(f, c.args[2]))
+            i1 = _find_calls(e1, "Index>::index")
+            i2 = _find_calls(e2, "Index>::index")
+            c1, c2 = shape.calls_of(e1), shape.calls_of(e2)
+            if any(x.endswith("Tour::start_depot") for x in c1) and not any(x.endswith("Tour::end_depot") for x in c1):
+                bad.append((c, "the transfer starts at a START depot: %s" % shape.show(e1)[:90]))
+            elif any(x.endswith("Tour::end_depot") for x in c2) and not any(x.endswith("Tour::start_depot") for x in c2):
+                bad.append((c, "the transfer ends at an END depot: %s" % shape.show(e2)[:90]))
+            elif len(i1) == 1 and len(i2) == 1 and len(i1[0][2]) == 2 and len(i2[0][2]) == 2:
+                a, b = i1[0][2][1], i2[0][2][1]
+                if not pos_ok(a):
+                    bad.append((c, "the end depot is not taken at one of the positions i, j, k: %s" % shape.show(a)))
+                elif not succ_ok(b):
+                    bad.append((c, "the start depot is not taken at (position + 1) mod n: %s" % shape.show(b)))
+            else:
+                und += 1
+    if bad:
+        ctx.bad(o, "%s at %s: the delta of the cycle counter is computed for transfers that do not exist in the cycle" % (bad[0][1], bad[0][0].line()),
+                loc=bad[0][0].line())
+    elif n >= 6 and not und:
+        ctx.ok(o, "%d transfers, all end_depot(cycle[p]) -> start_depot(cycle[(q+1) mod n])" % n)
+    else:
+        ctx.undecided(o, "%d transfers found, %d not in a recognised form" % (n, und))
+    o2 = ctx.ob("%s.three-opt.new-cycle" % rid, "T12", key, "the new cycle is [..=i] ++ [j+1..=k] ++ [i+1..=j] ++ [k+1..]")
+    ext = [c for c in fd.body.calls() if (c.callee or "").endswith("Extend>::extend") or (c.callee or "").endswith("Vec::extend_from_slice")]
+    want = [("RangeTo", [(2, 1)]), ("Range", [(3, 1), (4, 1)]), ("Range", [(2, 1), (3, 1)]), ("RangeFrom", [(4, 1)])]
+    if len(ext) != 4:
+        ctx.undecided(o2, "the new cycle is not assembled by four extend calls (%d)" % len(ext))
+        return
+    ext.sort(key=lambda c: (c.bb, c.idx))
+    order = sorted(ext, key=lambda c: int((c.line().split(":")[-1]) or 0))
+    probs = []
+    for c, (kind, bounds) in zip(order, want):
+        e = shape.normalise(shape.expr(fd, c.args[1]))
+        rng = [x for x in _find_calls(e, "") if x[1].startswith("agg:core::ops::range::")]
+        if len(rng) != 1:
+            ctx.undecided(o2, "slice at %s not recognised: %s" % (c.line(), shape.show(e)[:80]))
+            return
+        r = rng[0]
+        got_kind = r[1].split("::")[-1]
+        got = []
+        for b in r[2]:
+            if b[0] == "bin" and b[1] in ("Add", "Sub") and b[2][0] == "param" and b[3][0] == "const":
+                got.append((b[2][1], int(str(b[3][1]).split("_")[0]) * (1 if b[1] == "Add" else -1)))
+            elif b[0] == "param":
+                got.append((b[1], 0))
+            else:
+                got.append(None)
+        if got_kind != kind or got != bounds:
+            nm = {2: "i", 3: "j", 4: "k"}
+            probs.append("%s: %s(%s) instead of %s(%s)" % (c.line(), got_kind, ", ".join("?" if g is None else "%s%+d" % (nm.get(g[0], "p%d" % g[0]), g[1]) for g in got),
+                                                          kind, ", ".join("%s%+d" % (nm[b[0]], b[1]) for b in bounds)))
+    ctx.decide(o2, not probs, "four slices as documented", "; ".join(probs[:2]) + ": vehicles are lost from or duplicated in the rotation cycle")
+
+
+def three_opt_indices(ctx, rid):
+    """the 3-opt neighbourhood enumerates i < j < k strictly: each inner range starts one after the index of the enclosing range"""
+    TSPN = "<solver::transition_cycle_tsp::transition_cycle_neighborhood::TransitionCycleNeighborhood as rapid_solve::heuristics::common::Neighborhood>::neighbors_of"
+    keys = [k for k in ctx.prog.bodies if k.startswith("<solver::transition_cycle_tsp::transition_cycle_neighborhood::TransitionCycleNeighborhood as ")
+            and "::neighbors_of" in k]
+    o = ctx.ob("%s.three-opt.index-order" % rid, "T12", TSPN, "3-opt candidates use positions i < j < k (inner ranges start at the outer index + 1)")
+    if not keys:
+        ctx.anchor_gone(o, TSPN) if hasattr(ctx, "anchor_gone") else ctx.undecided(o, "neighbourhood not found")
+        return
+    bad, n = [], 0
+    for k in keys:
+        b = ctx.prog.bodies[k]
+        if not b.is_closure:
+            continue
+        fd = ctx.an.fd(k)
+        for ins in fd.body.instrs():
+            if ins.kind == "assign" and ins.rv_kind() == "agg" and (ins.rv.get("adt") or "").endswith("ops::range::Range") and ins.ops:
+                e = shape.normalise(shape.expr(fd, ins.ops[0]))
+                if ("param", 2) in [e] or (e[0] == "bin" and ("param", 2) in (e[2], e[3])):
+                    n += 1
+                    if not (e[0] == "bin" and e[1] == "Add" and any(x[0] == "const" and str(x[1]).startswith("1") for x in (e[2], e[3]))):
+                        bad.append((ins, shape.show(e)))
+    if bad:
+        ctx.bad(o, "an inner index range starts at %s at %s: two of the three positions can coincide (or run backwards) and three_opt builds a "
+                "cycle with vehicles duplicated or lost" % (bad[0][1], bad[0][0].line()), loc=bad[0][0].line())
+    elif n >= 2:
+        ctx.ok(o, "%d inner ranges start at index + 1" % n)
+    else:
+        ctx.undecided(o, "inner ranges not recognised")
